@@ -323,8 +323,9 @@ def make_grammar(rng, gid, extra_kinds=(), with_pos=False, neglook=True, name_el
             unions["U0"] = members
         root = {"name": "DynRoot", "fields": [{"name": "X", "kind": "union", "arg": "URoot", "tag": "@@"}],
                 "body": {"op": "cap", "f": "X", "fk": "union", "kid": {"op": "union", "u": "URoot"}}}
+        civ = (rng.random() < 0.5) if ci is None else ci
         return {"id": gid, "prods": [root] + prods, "unions": unions, "inputs": [], "ks": list(ks), "maxiter": 1000000,
-                "conv": conv_table(), "ci": (rng.random() < 0.5) if ci is None else ci,
+                "conv": conv_table(), "ci": civ, "citypes": ["Ident"] if civ else [],
                 "trailing": (rng.random() < 0.3) if trailing is None else trailing}
     raise RuntimeError("could not generate")
 
